@@ -1061,6 +1061,9 @@ fn get_circuit_info(
     let mut stack: Vec<(ConcreteTypeId, bool)> = circ_outputs
         .map(|generic_arg| (extract_matches!(generic_arg, GenericArg::Type).clone(), true))
         .collect();
+    // The gates whose inputs were pushed but were not processed yet. Visiting such a gate for the
+    // first time again means that the gate is (transitively) its own input.
+    let mut in_progress = UnorderedHashSet::<_>::default();
 
     while let Some((ty, first_visit)) = stack.pop() {
         let long_id = &context.get_type_info(&ty)?.long_id;
@@ -1076,6 +1079,10 @@ fn get_circuit_info(
             .map(|generic_arg| extract_matches!(generic_arg, GenericArg::Type));
 
         if first_visit {
+            if !in_progress.insert(ty.clone()) {
+                // A cyclic circuit is not a circuit.
+                return Err(SpecializationError::UnsupportedGenericArg);
+            }
             stack.push((ty, false));
             stack.extend(gate_inputs.map(|ty| (ty.clone(), true)))
         } else {
